@@ -19,6 +19,32 @@ HEADER = ("From Coq Require Import ZArith QArith Qcanon List.\n"
 COQ_SWEEP_N = 8
 
 
+def semantic_valid(rp, x):
+    """(True/False/None, reason): is x a valid solution in the sense of the formulation?  None = not decidable
+    here (degenerate sizes).  Uses the independent checkers of the C05 / C07 harnesses."""
+    name = type(rp).__name__
+    try:
+        if name.startswith("Arc"):
+            from props.arc_common import routes_valid
+            pos = all(a.travel_time > 0 for (i, j), a in rp.arcs.items() if i != 0 and j != 0)
+            return routes_valid(rp, x, require_routes=pos)
+        if name.startswith("Sequence"):
+            from props.seqlib import walk_valid
+            if rp.max_sequence_length < 3 or (0, 0) not in rp.arcs:
+                return None, ""
+            return walk_valid(rp, x)
+        # path-based: the selected stored routes visit every customer exactly once
+        counts = [0] * len(rp.nodes)
+        for xi, r in zip(x, rp.routes):
+            if xi:
+                for node in r[1:-1]:
+                    counts[node] += 1
+        badc = [k for k in range(1, len(rp.nodes)) if counts[k] != 1]
+        return (not badc), (f"customers {badc} are visited {[counts[k] for k in badc]} times" if badc else "")
+    except Exception as e:  # noqa: a checker that cannot run decides nothing
+        return None, f"{type(e).__name__}: {e}"
+
+
 def check_instance(rp):
     """Returns (data, S, out, zeros, nfeasible, problems)."""
     try:
@@ -61,6 +87,16 @@ def check_instance(rp):
         problems.append(("oracle/feasible-but-nonzero",
                          f"x={x} satisfies A x = b and x'Rx = 0 but has value {Fraction(int(vals[bad[0]]), den)}",
                          {"x": x, "value": str(Fraction(int(vals[bad[0]]), den))}))
+    # "every zero-energy assignment is a valid solution": validate zero-value vectors against the
+    # meaning of the formulation with checkers that never look at the constraint matrices
+    # (independent route decomposition / walk checker / exact cover over the stored routes)
+    for idx in np.flatnonzero(zero)[:40]:
+        x = [int(v) for v in X[idx]]
+        ok, why = semantic_valid(rp, x)
+        if ok is False:
+            problems.append(("oracle/zero-but-not-a-solution",
+                             f"value 0 at x={x}, which is not a valid solution of the routing problem: {why}", {"x": x}))
+            break
     if (int(vals.min()) == 0) != bool(feasible.any()):
         problems.append(("oracle/min-zero-iff-feasible",
                          f"minimum value {Fraction(int(vals.min()), den)}, feasible vectors: {int(feasible.sum())}", {}))
